@@ -97,6 +97,9 @@ pub enum Op {
     DropHandle { h: u8 },
     CloneHandle { h: u8, h2: u8 },
     ArmDropPanic { h: u8 },
+    /// Arm the destructor of whatever container c stores right now (it panics when the last
+    /// count goes, wherever that happens).
+    ArmStored { c: u8 },
     Spawn { t: u8 },
     Join { t: u8 },
     /// Register a thread-local whose destructor performs `ops` at thread exit.
@@ -371,7 +374,13 @@ pub fn gen_op(rng: &mut Rng, p: &GenParams, n_conts: usize, n_threads: usize, me
             off: 1 + rng.below(3) as i32,
         },
         18 => Op::Barrier { id: 0, n: 0 },
-        _ => Op::ArmDropPanic { h },
+        _ => {
+            if rng.below(2) == 0 {
+                Op::ArmDropPanic { h }
+            } else {
+                Op::ArmStored { c }
+            }
+        }
     }
 }
 
